@@ -3,7 +3,7 @@ EXTENDS Types
 Q(p, n) == [p |-> p, n |-> n]
 Td(slot, name, base, units, dflt, pat) == [slot |-> slot, name |-> name, base |-> base, units |-> units, dflt |-> dflt, pat |-> pat]
 NoLeaf == [units |-> "", dflt |-> "", pat |-> ""]
-Sites == {"ltop", "lc", "ld", "ll", "lg", "li", "lo", "ln", "ls"}
+Sites == {"ltop", "lc", "ld", "ll", "lg", "li", "lo", "ln", "ls", "la"}
 \* S_bind: up to three typedefs named t (base string, units = the slot), every site, three spellings
 Small == {S \in SUBSET Slots : Cardinality(S) <= 3}
 SBind(dummy) ==
